@@ -14,19 +14,24 @@ def pair_case(inp):
     G, H, ids = itslib.realise_pair(inp["pair"], rng)
     aG, aH = chem.graph_abs(G, ids), chem.graph_abs(H, ids)
     runs = []
-    for cfg in ("ITSGraph", "ITSGraph-balance", "construct", "construct-nostore", "construct-swapped-base"):
+    for cfg in ("ITSGraph", "ITSGraph-balance", "construct", "construct-nostore", "construct-swapped-base",
+                "ITSGraph-ignore-aromaticity", "construct-ignore-aromaticity"):
         if cfg == "ITSGraph":
             I = ITSConstruction.ITSGraph(G, H)
         elif cfg == "ITSGraph-balance":
             I = ITSConstruction.ITSGraph(G, H, balance_its=True)
         elif cfg == "construct":
             I = ITSConstruction.construct(G, H, store=True)
+        elif cfg == "ITSGraph-ignore-aromaticity":      # only the reported difference changes (|difference| < 1 is reported as 0)
+            I = ITSConstruction.ITSGraph(G, H, ignore_aromaticity=True)
+        elif cfg == "construct-ignore-aromaticity":
+            I = ITSConstruction.construct(G, H, ignore_aromaticity=True)
         elif cfg == "construct-nostore":
             I = ITSConstruction.construct(G, H, store=False)
         else:
             I = ITSConstruction.construct(G, H, balance_its=False)
         dG, dH = its_decompose(I)
-        runs.append({"cfg": cfg, "its": chem.its_abs(I, ids), "dG": chem.graph_abs(dG, ids), "dH": chem.graph_abs(dH, ids)})
+        runs.append({"cfg": cfg, "ignore_arom": cfg.endswith("ignore-aromaticity"), "its": chem.its_abs(I, ids), "dG": chem.graph_abs(dG, ids), "dH": chem.graph_abs(dH, ids)})
     if chem.graph_abs(G, ids) != aG or chem.graph_abs(H, ids) != aH:
         raise AssertionError("ITS construction modified its inputs")
     return {"kind": "pair", "G": aG, "H": aH, "runs": runs}
@@ -99,8 +104,24 @@ class S(core.Stage):
         return []
 
 
+# hand-written mapped reactions with explicit hydrogens: spectator H2, several centre hydrogens on one atom, H2 as reagent
+HANDMADE = [
+    "[CH3:1][C:2](=[O:3])[OH:4].[CH3:5][O:6][H:7]>>[CH3:1][C:2](=[O:3])[O:6][CH3:5].[H:7][OH:4]",
+    "[CH2:1]=[CH2:2].[H:3][H:4]>>[CH2:1]([H:3])[CH2:2][H:4]",
+    "[CH3:1][Br:2].[OH-:3].[H:5][H:6]>>[CH3:1][OH:3].[Br-:2].[H:5][H:6]",
+    "[CH2:1]=[CH2:2].[H:3][H:4].[H:5][H:6]>>[CH2:1]([H:3])[CH2:2][H:4].[H:5][H:6]",
+    "[CH3:1][C:2](=[O:3])[OH:4].[CH3:5][O:6][H:7].[H:8][H:9]>>[CH3:1][C:2](=[O:3])[O:6][CH3:5].[H:7][OH:4].[H:8][H:9]",
+    "[CH3:1][CH:2]=[O:3].[H:4][N:5]([H:6])[CH3:7]>>[CH3:1][CH:2]=[N:5][CH3:7].[H:4][O:3][H:6]",
+    "[H:1][N:2]([H:3])[CH3:4].[Cl:5][Cl:6].[Cl:7][Cl:8]>>[Cl:5][N:2]([Cl:7])[CH3:4].[H:1][Cl:6].[H:3][Cl:8]",
+    "[CH3:1][C:2]#[N:3].[H:4][H:5].[H:6][H:7]>>[CH3:1][C:2]([H:4])([H:6])[N:3]([H:5])[H:7]",
+]
+
+
 def corpus_inputs(rng, k):
     out = []
+    for j, s0 in enumerate(HANDMADE):
+        for how, s in chem.rewrites(s0, rng, max(k, 4)):
+            out.append({"rsmi": s, "src": "handmade:%d" % j, "how": how})
     for r in chem.corpus():
         for how, s in chem.rewrites(r["rsmi"], rng, k):
             out.append({"rsmi": s, "src": r["src"] + ":" + r["id"], "how": how})
